@@ -13,15 +13,13 @@
 (*                                                                            *)
 (* events:  new | probe | merit | start | eval | return | reject | after | undo *)
 (* Every event is judged; the verdict is the set of failing clause names.      *)
-EXTENDS Dyadic, Json, IOUtils, TLC, FiniteSets, SequencesExt
+EXTENDS LensNear, Json, IOUtils, TLC, FiniteSets, SequencesExt
 Trace == JsonDeserialize(IOEnv.TRACE_FILE)
 VARIABLES l, st, pst
 vars == <<l, st, pst>>
 NoRun == [run |-> FALSE, ret |-> FALSE, x0 |-> <<>>, m0 |-> DZero, w |-> <<>>, t |-> <<>>,
           vars |-> <<>>, zmax |-> DOne, evs |-> <<>>, rx |-> <<>>, rf |-> DZero]
 
-Sum2(a, b) == DAdd(DAbs(a), DAbs(b))
-NearV(a, b, bits) == a = b \/ (IsFin(a) /\ IsFin(b) /\ Small(DSub(a, b), Sum2(a, b), bits))
 AllFin(s) == \A i \in 1..Len(s) : IsFin(s[i])
 \* the merit function: sum over operands of (weight * (value - target))^2
 Merit(ops, w, t) == DSumSeq([i \in 1..Len(ops) |-> DSq(DMul(w[i], DSub(ops[i], t[i])))])
@@ -112,16 +110,6 @@ After(s, e) ==
 
 --------------------------------------------------------------------------
 (* undo(): the projection equals the one pushed at the Start being undone     *)
-NearZ(a, b, zs) == IF IsFin(a) /\ IsFin(b) THEN Small(DSub(a, b), zs, 40) ELSE a = b
-NearSeq(a, b, bits) == Len(a) = Len(b) /\ \A i \in 1..Len(a) : NearV(a[i], b[i], bits)
-NearSurf(a, b, zs) ==
-  /\ a.kind = b.kind /\ a.stop = b.stop /\ a.refl = b.refl
-  /\ NearZ(a.z, b.z, zs) /\ NearV(a.R, b.R, 40) /\ NearV(a.k, b.k, 40)
-  /\ NearSeq(a.coef, b.coef, 40) /\ NearSeq(a.npre, b.npre, 40) /\ NearSeq(a.npost, b.npost, 40)
-  /\ NearV(a.dx, b.dx, 40) /\ NearV(a.dy, b.dy, 40) /\ NearV(a.rx, b.rx, 40) /\ NearV(a.ry, b.ry, 40)
-NearProj(p, q, zs) ==
-  /\ Len(p.surf) = Len(q.surf) /\ p.wl = q.wl /\ p.pk = q.pk /\ p.sol = q.sol
-  /\ \A j \in 1..Len(p.surf) : NearSurf(p.surf[j], q.surf[j], zs)
 Undo(e) ==
   IF e.exc # "" THEN {"raises"} ELSE
   IF pst = <<>> THEN {"undo_without_run"} ELSE
